@@ -37,6 +37,7 @@ def plan(tier, seed):
     specs += [{'kind': 'shapes', 'n': 1000 if q else 20000} for _ in range(4 if q else 8)]
     specs += [{'kind': 'hier', 'n': 300 if q else 8000} for _ in range(4 if q else 8)]
     specs += [{'kind': 'witness'}]
+    specs += [{'kind': 'editcopy', 'n': 400 if q else 8000} for _ in range(2 if q else 4)]
     return specs
 
 
@@ -44,7 +45,8 @@ def conclude(agg):
     c = agg['counters']
     r = [f'monitor counter {k} is zero' for k in ('lib_cells', 'lib_instances', 'shape_cases', 'hier_cases', 'lane_checks', 'name_checks', 'op/copy', 'op/pickle',
                                                   'op/eliminate', 'op/resolve', 'shape/output_read_internally', 'shape/ignored_input', 'shape/empty', 'shape/multi_output',
-                                                  'unconnected_input_pins', 'unconnected_output_pins', 'sequential_cells', 'directed_dead_reader_before_multi_output_driver')
+                                                  'unconnected_input_pins', 'unconnected_output_pins', 'sequential_cells', 'directed_dead_reader_before_multi_output_driver',
+                                                  'editcopy_cases', 'editcopy_index_order_differs_from_creation_order', 'copy_pickle_order_checks')
          if c.get(k, 0) == 0]
     if len(agg['sets'].get('libs', ())) < 5:
         r.append('not all five libraries visited')
@@ -402,12 +404,76 @@ def witness(ctx):
     ctx.case(case, True, key=case)
 
 
+def gen_bench_seq(rng):
+    """small sequential bench netlist whose statements come in a random order (state elements tend to come late, so they sit at high node indices)"""
+    nin, nff, ng = rng.randint(1, 3), rng.randint(2, 5), rng.randint(2, 8)
+    ins = [f'a{i}' for i in range(nin)]
+    ffs = [f'q{i}' for i in range(nff)]
+    stmts = []
+    avail = ins + ffs
+    for g in range(ng):
+        k = rng.choice(['and', 'or', 'nand', 'nor', 'xor', 'not', 'buf'])
+        ar = 1 if k in ('not', 'buf') else rng.randint(2, 3)
+        stmts.append((0.3 + 0.1 * g, f'g{g}={k}({",".join(rng.choice(avail) for _ in range(ar))})'))
+        avail.append(f'g{g}')
+    for i, q in enumerate(ffs):
+        stmts.append((rng.choice([0.0, 0.8, 1.5, 2.0]) + rng.random(), f'{q}=dff({rng.choice(avail)})'))
+    stmts.sort()
+    outs = rng.sample([f'g{g}' for g in range(ng)], rng.randint(1, min(3, ng)))
+    return ' '.join([f'input({x})' for x in ins] + [f'output({x})' for x in outs] + [t for _, t in stmts])
+
+
+def editcopy_case(ctx, rng, idx):
+    """copy / pickle of a circuit with an edit history: after node removals the index order of the nodes differs from their creation order;
+    names and order of ports and state elements and the responses to the same (positional) test vectors must be those of the circuit copied"""
+    from kyupy import bench
+    from kyupy.logic_sim import LogicSim
+    text = gen_bench_seq(rng)
+    case = {'kind': 'editcopy', 'bench': text, 'rngkey': getattr(rng, 'key', None)}
+    ctx.count('editcopy_cases')
+    with ctx.guard('transformation-raises', case):
+        c = bench.parse(text)
+        created = [n.name for n in c.s_nodes]
+        c.eliminate_1to1_forks()
+        names = [n.name for n in c.s_nodes]
+        if names != created:
+            ctx.count('editcopy_index_order_differs_from_creation_order')      # (that change itself is the open finding; the witness shard reports it)
+        n = 16
+        stim = np.random.default_rng(__import__("zlib").crc32(text.encode())).integers(0, 256, size=(len(names), 3, (n + 7) // 8), dtype=np.uint8)
+
+        def response(circ):
+            sim = LogicSim(circ, sims=n, m=2)
+            sim.s[0] = stim
+            sim.s_to_c(); sim.c_prop(); sim.c_to_s()
+            return sim.s[1][:, 0].copy()
+        ref = response(c) if len(c.lines) else None
+        for op in ('copy', 'pickle'):
+            c2 = c.copy() if op == 'copy' else pickle.loads(pickle.dumps(c))
+            ctx.count('copy_pickle_order_checks')
+            names2 = [x.name for x in c2.s_nodes]
+            if names2 != names:
+                ctx.violation('port-state-order', f'{op} of an edited circuit changes the names/order of ports and state elements from {names} to {names2}; bench "{text}" after eliminate_1to1_forks', case, sig='copy-order')
+                continue
+            if ref is not None:
+                got = response(c2)
+                ctx.count('lane_checks', n * len(names))
+                if not np.array_equal(got, ref):
+                    row = int(np.nonzero((got != ref).any(axis=-1))[0][0])
+                    ctx.violation('function-changed', f'{op} of an edited circuit: the same test vectors give another response at {names[row]}; bench "{text}" after eliminate_1to1_forks', case)
+    ctx.case(case, True, key=text)
+    if idx < 2:
+        ctx.sample(case)
+
+
 def run(spec, ctx):
     kind = spec['kind']
     if kind == 'lib':
         lib_shard(ctx, spec)
     elif kind == 'witness':
         witness(ctx)
+    elif kind == 'editcopy':
+        for i in range(spec['n']):
+            editcopy_case(ctx, KRandom(f'C10ec/{spec["seed"]}/{spec["shard"]}/{i}'), i)
     else:
         for i in range(spec['n']):
             rng = KRandom(f'C10{kind}/{spec["seed"]}/{spec["shard"]}/{i}')
@@ -423,5 +489,7 @@ def replay(case, ctx):
         witness(ctx)
     elif k == 'hier':
         hier_check(ctx, case, 99)
+    elif k == 'editcopy':
+        editcopy_case(ctx, KRandom(case['rngkey']), 99)
     else:
         shape_case(ctx, KRandom(case['rngkey']), 99)
